@@ -108,6 +108,7 @@ pub fn c15_slice_str() {
 }
 
 // @h prop=C15 tier=thorough kind=proof inst="ReadSlice<SliceRegion<MirrorRegion<u8>>> (nested)" bounds="[[x,y],[z]] region-backed vs [[u,v]] / [[u,v],[w]] borrowed" desc="nested slices compare like Vec<Vec<u8>>"
+#[cfg(feature = "thorough")]
 #[cfg_attr(kani, kani::proof, kani::unwind(6))]
 pub fn c15_nested() {
     type NR = SliceRegion<SliceRegion<MirrorRegion<u8>>>;
@@ -159,4 +160,26 @@ pub fn c15_wrapped_raw_raw() {
     let y = <HuffmanContainer<u8> as Region>::ReadItem::borrow_as(&vb);
     assert_agrees(&x, &y, model_cmp(&a, &b));
     cover!(model_cmp(&a, &b) == Ordering::Less, "less");
+}
+
+// @h prop=C15 tier=quick kind=proof timeout=900 unwindset="from_fn|drop_glue|drop_in_place:258" inst="Wrapped<u8>: Huffman-ENCODED item vs raw item (uniform 2-bit code over the symbols 0..3, table via hook; no B-tree)" bounds="encoded item = 2 code words (4 bits of a symbolic byte); raw item = 1..3 symbolic symbols in 0..3" desc="raw vs encoded comparison coincides with the lexicographic order of the decoded symbol vectors, in both directions"
+#[cfg_attr(kani, kani::proof, kani::unwind(8))]
+pub fn c15_wrapped_encoded_raw() {
+    use flatcontainer::impls::huffman_container::verif_hooks::Code;
+    let code = Code::<u8>::uniform_table(2, &[0, 1, 2, 3]);
+    let bytes = sym::bytes::<1>();
+    let x = code.read(&bytes, (0, 4));
+    let a = Bytes::<3> { buf: [(bytes[0] >> 6) & 3, (bytes[0] >> 4) & 3, 0], len: 2 };
+    let b = Bytes::<3>::any_symlen();
+    sym::assume(b.len >= 1 && b.buf[0] <= 3 && b.buf[1] <= 3 && b.buf[2] <= 3);
+    let vb: Vec<u8> = b.to_vec();
+    let y = <HuffmanContainer<u8> as Region>::ReadItem::borrow_as(&vb);
+    let m = model_cmp(&a, &b);
+    assert!((x == y) == (m == Ordering::Equal), "C15: encoded == raw disagrees with the owned values");
+    assert!(x.partial_cmp(&y) == Some(m), "C15: encoded vs raw partial_cmp disagrees with the owned values");
+    assert!(y.partial_cmp(&x) == Some(m.reverse()), "C15: raw vs encoded partial_cmp disagrees with the owned values");
+    assert!(x.cmp(&x) == Ordering::Equal, "C15: encoded item not equal to itself");
+    cover!(m == Ordering::Equal, "equal across representations");
+    cover!(m == Ordering::Less && b.len == 3, "encoded item is a proper prefix of the raw one");
+    sym::forget(code);
 }
